@@ -16,6 +16,13 @@ class TaggedScalar(er.CustomScalar):
         v = super().coerce_output(v)
         return f"{self.tag}:{v}" if isinstance(v, str) else v
 
+class MarkDirective:
+    """stateful, bundle-specific directive instance (same class under every schema name)"""
+    def __init__(self, tag): self.tag = tag
+    async def on_field_execution(self, directive_args, next_resolver, parent, args, ctx, info):
+        r = await next_resolver(parent, args, ctx, info)
+        return f"{self.tag}[{r}]" if isinstance(r, str) else r
+
 def registrations(bundle):
     """the individual registration actions of a bundle, as thunks"""
     from tartiflette import Resolver, Scalar, TypeResolver
@@ -25,6 +32,8 @@ def registrations(bundle):
     for t in model["types"]:
         if t["kind"] == "scalar" and t["name"] not in BUILTIN_SCALARS:
             acts.append(lambda t=t: Scalar(t["name"], schema_name=name)(TaggedScalar(tag)))
+    from tartiflette import Directive
+    acts.append(lambda: Directive("mark", schema_name=name)(MarkDirective(tag)))
     for coord, spec in renv["resolvers"].items():
         if spec["k"] == "default": continue
         def reg(coord=coord, spec=spec):
@@ -63,7 +72,17 @@ def make_bundle(rng, idx):
         dg = DocGen(sg, rng)
         q, ops, opvars = dg.document(n_ops=1)
         probes.append((q, ops[0][1], dg.variables_for(opvars[0])[0]))
-    return {"name": f"name{idx}", "model": sg.model(), "env": renv, "tag": tag, "probes": probes}
+    model = sg.model()
+    # a custom directive on some String fields, and a directive-adding type extension
+    marked = 0
+    for t in model["types"]:
+        if t["kind"] == "object":
+            for f in t["fields"]:
+                if f["type"] == {"n": "String"} and rng.random() < 0.6:
+                    f["sdl_directives"] = " @mark"; marked += 1
+    ext_target = sg.obj_names[0]
+    model["sdl_extra"] = ['directive @mark(tag: String = "d") on FIELD_DEFINITION | OBJECT', f"extend type {ext_target} @mark(tag: \"ext\")"]
+    return {"name": f"name{idx}", "model": model, "env": renv, "tag": tag, "probes": probes}
 
 def alone(bundle):
     """build the bundle alone in a fresh process"""
